@@ -307,7 +307,7 @@ func (c *Ctx) loopCoversAll(fn *ssa.Function, coll string) bool {
 		if !lenOfCall(coll)(b.Y) {
 			continue
 		}
-		if i.Block().Comment == "rangeindex.loop" {
+		if blockComment(i) == "rangeindex.loop" {
 			return true
 		}
 		phi, ok := b.X.(*ssa.Phi)
